@@ -45,7 +45,7 @@ fn floors(_t: Tier) -> Vec<(&'static str, u64)> {
 
 #[derive(Clone, Debug)]
 pub struct Variant {
-    /// per node, per operand: 0 direct, 1 temporary clone, 2 clone of a clone
+    /// per node, per operand: 0 direct, 1 temporary clone, 2 clone of a clone, 3 `clone_from` into an existing handle
     pub clone_arg: Vec<Vec<u8>>,
     pub drop_after_last_use: Vec<bool>,
     /// 0: backward on the result; 1: on a clone of it; 2: on a clone after dropping the original handle;
@@ -72,7 +72,7 @@ impl Variant {
         let heavy = r.chance(1, 2);
         for ca in v.clone_arg.iter_mut() {
             for c in ca.iter_mut() {
-                *c = if r.chance(if heavy { 3 } else { 1 }, 6) { 1 + r.below(2) as u8 } else { 0 };
+                *c = if r.chance(if heavy { 3 } else { 1 }, 6) { 1 + r.below(3) as u8 } else { 0 };
             }
         }
         for (i, d) in v.drop_after_last_use.iter_mut().enumerate() {
@@ -163,9 +163,16 @@ pub fn run_variant(p: &Program, v: &Variant, seed: Option<(&[usize], &[f64])>, u
                             match c {
                                 0 => None,
                                 1 => Some(orig.clone()),
-                                _ => {
+                                2 => {
                                     let c1 = orig.clone();
                                     Some(c1.clone())
+                                }
+                                _ => {
+                                    // `Clone::clone_from` into an existing handle of some other array (what
+                                    // `Vec<Array>::clone_from` does with a checkpoint), tracked or not
+                                    let mut c = if i % 2 == 0 { arr(&[1], &[0.0]).tracked() } else { arr(&[1], &[0.0]) };
+                                    c.clone_from(orig);
+                                    Some(c)
                                 }
                             }
                         })
